@@ -146,7 +146,7 @@ def run_case(case):
             elif kind == "rqs_pos":
                 for knots in (1, 2, 3):
                     for iv in (2, (-1, 3), (1, 5)):
-                        for adj in (1e-2, 1e-3):
+                        for adj in (1e-2, 1e-3, 1.0, 2.0):  # ">1 promotes more evenly spaced widths" is documented as valid
                             o = st(B.RationalQuadraticSpline(knots=knots, interval=iv, softmax_adjust=adj))
                             lo, hi = (-iv, iv) if not isinstance(iv, tuple) else iv
 
@@ -279,7 +279,7 @@ def run_case(case):
                 u = D.Uniform(-vj, vj * 2)
                 chk(f"Uniform.minval[{m:g}]", u.minval, -v)
                 chk(f"Uniform.maxval[{m:g}]", u.maxval, 2 * v)
-            if 1e-3 <= m <= 1e3:
+            if True:
                 cov = (m * np.asarray([[2.0, 0.6], [0.6, 1.0]])).astype(dtype)
                 mvn = D.MultivariateNormal(jnp.zeros(2), jnp.asarray(cov))
                 tr += 1
